@@ -88,6 +88,9 @@ func main() {
 	if v := os.Getenv("VERIF_DIR"); v != "" {
 		verifDir = v
 	}
+	if v := os.Getenv("VERIF_REPO"); v != "" {
+		repoDir = v
+	}
 	if pf := os.Getenv("GOSYM_CPUPROFILE"); pf != "" {
 		if f, err := os.Create(pf); err == nil {
 			pprof.StartCPUProfile(f)
